@@ -24,6 +24,9 @@ var allArches = map[string]*arch.Info{
 	"MIPSEL64": arch.MIPSEL64, "MIPSEL64N32": arch.MIPSEL64N32,
 }
 
+// allArchesNative is what arch.GetInfo("") returns in this build (nil if unsupported).
+var allArchesNative *arch.Info
+
 func hexs(s string) string { return "x" + hex.EncodeToString([]byte(s)) }
 
 func unhexs(s string) string {
@@ -154,8 +157,15 @@ func printHeader(w *bufio.Writer) {
 		keys = append(keys, k)
 	}
 	sort.Strings(keys)
+	if native, err := arch.GetInfo(""); err == nil {
+		keys = append(keys, "NATIVE")
+		allArchesNative = native
+	}
 	for _, k := range keys {
 		ai := allArches[k]
+		if k == "NATIVE" {
+			ai = allArchesNative
+		}
 		var nums []int
 		for n := range ai.SyscallNumbers {
 			nums = append(nums, n)
